@@ -156,6 +156,84 @@ bb_u8(bbuf *b, uint8_t v)
 	bb_add(b, &v, 1);
 }
 
+
+// ---------------------------------------------------------------- diagnostics: library log + scheduling latency
+// The udp transport says in its log why it gave a peer up ("timed out due to
+// inactivity", "Received disconnect ... reason N"); a well-behaved client that
+// loses its connection on udp is judged by that reason, not by the clock.
+#include <pthread.h>
+#define LOGRING 64
+static struct {
+	uint64_t t_ns;
+	char     text[150];
+} logring[LOGRING];
+static _Atomic unsigned long logpos;
+static _Atomic long log_udp_inactive;    // NNG-UDP-INACTIVE events
+static _Atomic long log_udp_disc[16];    // received DISC by reason
+static _Atomic long log_pair_busy, log_mismatch;
+
+static void
+c11_logger(nng_log_level level, nng_log_facility fac, const char *id, const char *msg)
+{
+	(void) level;
+	(void) fac;
+	if (id == NULL) return;
+	if (!strcmp(id, "NNG-UDP-INACTIVE")) {
+		atomic_fetch_add(&log_udp_inactive, 1);
+	} else if (!strcmp(id, "NNG-UDP-DISC")) {
+		const char *r = strstr(msg, "reason ");
+		int         n = r ? atoi(r + 7) : 15;
+		atomic_fetch_add(&log_udp_disc[n >= 0 && n < 16 ? n : 15], 1);
+	} else if (!strcmp(id, "NNG-PAIR-BUSY")) {
+		atomic_fetch_add(&log_pair_busy, 1);
+	} else if (!strcmp(id, "NNG-PEER-MISMATCH")) {
+		atomic_fetch_add(&log_mismatch, 1);
+	} else {
+		return;
+	}
+	unsigned long i = atomic_fetch_add(&logpos, 1) % LOGRING;
+	logring[i].t_ns = vf_now_ns();
+	snprintf(logring[i].text, sizeof(logring[i].text), "%s: %s", id, msg);
+}
+
+static void
+log_dump(uint64_t since_ns)
+{
+	unsigned long end = atomic_load(&logpos), beg = end > LOGRING ? end - LOGRING : 0;
+	uint64_t      now = vf_now_ns();
+	for (unsigned long k = beg; k < end; k++) {
+		if (logring[k % LOGRING].t_ns >= since_ns) fprintf(stderr, "  DIAG log -%.3f s %s\n", (double) (now - logring[k % LOGRING].t_ns) / 1e9, logring[k % LOGRING].text);
+	}
+}
+
+// scheduling latency probe: a thread that sleeps 1 ms at a time and records
+// by how much it overslept; a process that is not being run shows it here
+static _Atomic uint64_t tick_max_over_ns; // since the last reset
+static _Atomic uint64_t tick_count;
+static void *
+ticker(void *arg)
+{
+	(void) arg;
+	for (;;) {
+		uint64_t a = vf_now_ns();
+		vf_usleep(1000);
+		uint64_t d = vf_now_ns() - a;
+		uint64_t o = d > 1000000 ? d - 1000000 : 0;
+		if (o > atomic_load(&tick_max_over_ns)) atomic_store(&tick_max_over_ns, o);
+		atomic_fetch_add(&tick_count, 1);
+	}
+	return NULL;
+}
+static void
+ticker_start(void)
+{
+	pthread_t      t;
+	pthread_attr_t at;
+	pthread_attr_init(&at);
+	pthread_attr_setdetachstate(&at, PTHREAD_CREATE_DETACHED);
+	pthread_create(&t, &at, ticker, NULL);
+}
+
 // ---------------------------------------------------------------- expectations
 enum { FR_DELIVER = 0, FR_TTLDROP, FR_KILL, FR_IDMISS, FR_SINK, FR_OVERSIZE, FR_AFTER };
 static const char *fr_reason[] = { "deliverable", "ttl-exceeded", "malformed-header", "wrong-id", "sink", "oversize", "after-close" };
@@ -214,6 +292,8 @@ typedef struct {
 	long          rx_total;
 	int           lingering; // pipes known to stay: udp peers that vanished without DISC, zombies
 	bool          vanished;  // the current udp session ended without DISC
+	uint64_t      sess_t0;   // start of the current session and log counters then
+	long          inact0, disc0[16];
 	bool          wedged;    // a new client could not connect: stop using this victim
 } victim;
 
@@ -276,6 +356,10 @@ se_new(victim *v, const char *mut)
 	snprintf(se->mut, sizeof(se->mut), "%s", mut);
 	se->next    = v->sessions;
 	v->sessions = se;
+	v->sess_t0  = vf_now_ns();
+	v->inact0   = atomic_load(&log_udp_inactive);
+	for (int i = 0; i < 16; i++) v->disc0[i] = atomic_load(&log_udp_disc[i]);
+	atomic_store(&tick_max_over_ns, 0);
 	return se;
 }
 
@@ -1016,6 +1100,20 @@ spin_window(victim *v, const char *when)
 	pump(v);
 }
 
+static void
+diag(victim *v, const char *what)
+{
+	fprintf(stderr, "  DIAG %s: %s/%s mut=%s session age %.2f s, max scheduling delay %.0f ms, udp inactivity expiries +%ld, DISC received by reason:", what, tnames[v->tran], v->vp->name, v->cur_mut,
+	    (double) (vf_now_ns() - v->sess_t0) / 1e9, (double) atomic_load(&tick_max_over_ns) / 1e6, atomic_load(&log_udp_inactive) - v->inact0);
+	for (int i = 0; i < 16; i++) {
+		long d = atomic_load(&log_udp_disc[i]) - v->disc0[i];
+		if (d) fprintf(stderr, " %d:+%ld", i, d);
+	}
+	fprintf(stderr, "; victim pipes %d (own clients %d, kept %d) pre=%d rem=%d ctl add/rem %d/%d %d/%d\n", vf_pipe_count(v->s), live_ctl(v), v->lingering, atomic_load(&v->pre), atomic_load(&v->rem),
+	    atomic_load(&v->ctl[0].add), atomic_load(&v->ctl[0].rem), atomic_load(&v->ctl[1].add), atomic_load(&v->ctl[1].rem));
+	log_dump(v->sess_t0 > 3000000000ULL ? v->sess_t0 - 3000000000ULL : 0);
+}
+
 // (4) bystanders: the old control still works and was not disconnected; a
 // new client can connect and work.  attacker_present: a hostile connection is
 // still open (hold sessions).
@@ -1029,10 +1127,12 @@ check_bystanders(victim *v, bool do_new, bool attacker_present)
 		if (atomic_load(&v->ctl[o].rem) != v->ctl[o].rem_base) {
 			snprintf(key, sizeof(key), "C11/bystander-dropped/%s/%s", tnames[v->tran], vp->name);
 			vf_violation(key, "the well-behaved control connection was disconnected (mutation %s)", v->cur_mut);
+			diag(v, "bystander-dropped");
 			ctl_close(v, o);
 		} else if (!exchange(v, o)) {
 			snprintf(key, sizeof(key), "C11/control-old/%s/%s", tnames[v->tran], vp->name);
 			vf_violation(key, "control client connected before the session cannot complete an exchange within 6 s after mutation %s", v->cur_mut);
+			diag(v, "control-old");
 			ctl_close(v, o);
 		} else {
 			vf_stat("control_old_ok", 1);
@@ -2559,10 +2659,9 @@ main(int argc, char **argv)
 {
 	vf_init(argc, argv);
 	vf_nng_init(4, 2, 2);
-	if (vf_verbose >= 2) {
-		nng_log_set_logger(nng_stderr_logger);
-		nng_log_set_level(NNG_LOG_DEBUG);
-	}
+	nng_log_set_logger(vf_verbose >= 2 ? nng_stderr_logger : c11_logger);
+	nng_log_set_level(NNG_LOG_DEBUG);
+	ticker_start();
 	vf_rng r;
 	long   ncases = 0;
 	static victim V;
